@@ -247,35 +247,60 @@ fn relabel_effects(t: &Ast, style: &str, next: &mut usize, cond: bool) -> Ast {
     }
 }
 
-/// all programs: trees of <= max inner nodes in every leaf style, plus two-statement chains
-pub fn programs(max: usize) -> Vec<Ast> {
-    let by = trees_by_size(&kinds(), max);
-    let mut out = Vec::new();
-    for (n, sz) in by.iter().enumerate() {
-        if n == 0 {
-            continue;
+/// The program set, generated lazily: index -> (tree, leaf style). `level` 0..=2:
+/// 0: <= 2 inner nodes, all 16 kinds; 1: <= 3 inner nodes, all 16 kinds;
+/// 2: level 1 plus all trees of exactly 4 inner nodes over the 10 logging / assigning kinds.
+pub struct Programs {
+    trees: Vec<Ast>,
+    chains: Vec<Ast>,
+}
+
+fn reduced_kinds() -> Vec<Kind> {
+    vec![
+        Kind::Infix("lop".into()),
+        Kind::Infix("=".into()),
+        Kind::Infix("lset".into()),
+        Kind::Prefix("lg".into()),
+        Kind::Postfix("lpo".into()),
+        Kind::Ternary,
+        Kind::Call(1),
+        Kind::Call(2),
+        Kind::List(2),
+        Kind::Map(1),
+    ]
+}
+
+impl Programs {
+    pub fn new(level: usize) -> Programs {
+        let max = if level == 0 { 2 } else { 3 };
+        let by = trees_by_size(&kinds(), max);
+        let mut trees: Vec<Ast> = by.iter().skip(1).flat_map(|v| v.iter().cloned()).collect();
+        if level >= 2 {
+            let by4 = trees_by_size(&reduced_kinds(), 4);
+            trees.extend(by4[4].iter().cloned());
         }
-        for t in sz {
-            for style in STYLES {
-                // conditions only differ in the mixed styles if the tree has one
-                let mut i = 0;
-                let r = relabel_effects(t, style, &mut i, false);
-                if !out.last().map(|l: &Ast| *l == r).unwrap_or(false) {
-                    out.push(r);
-                }
+        // statement chains: every ordered pair of one-node trees
+        let mut chains = Vec::new();
+        for a in &by[1] {
+            for b in &by[1] {
+                chains.push(Ast::Stmt(vec![a.clone(), b.clone()]));
             }
         }
+        Programs { trees, chains }
     }
-    // statement chains: every ordered pair of one-node trees, and triples with a leading assignment
-    let ones: Vec<&Ast> = by[1].iter().collect();
-    for a in &ones {
-        for b in &ones {
-            let mut i = 0;
-            out.push(relabel_effects(&Ast::Stmt(vec![(*a).clone(), (*b).clone()]), "mixed-true", &mut i, false));
+    pub fn len(&self) -> u64 {
+        (self.trees.len() * STYLES.len() + self.chains.len()) as u64
+    }
+    pub fn get(&self, i: u64) -> Ast {
+        let i = i as usize;
+        let n = self.trees.len() * STYLES.len();
+        let mut next = 0;
+        if i < n {
+            relabel_effects(&self.trees[i / STYLES.len()], STYLES[i % STYLES.len()], &mut next, false)
+        } else {
+            relabel_effects(&self.chains[i - n], "mixed-true", &mut next, false)
         }
     }
-    out.dedup();
-    out
 }
 
 pub struct Run {
